@@ -407,6 +407,37 @@ func main() {
 			}
 		}
 	}
+	// a data point's elapsed time: signed 64-bit nanoseconds at both ends, every value survives unchanged
+	for k, ns := range []int64{0, 1, -1, -5, 999999, -999999, 1500000000, -1500000000, 1 << 40, -(1 << 40), 1<<63 - 1, -1 << 63, rng.Int63(), -rng.Int63(), rng.Int63n(1 << 32), -rng.Int63n(1 << 32)} {
+		for ci, c := range codecs {
+			var in message.Message
+			if (k+ci)%2 == 0 {
+				in = &message.UpstreamChunk{StreamChunk: &message.StreamChunk{DataPointGroups: []*message.DataPointGroup{{DataIDOrAlias: message.DataIDAlias(1), DataPoints: []*message.DataPoint{{ElapsedTime: time.Duration(ns), Payload: []byte{1}}}}}}}
+			} else {
+				in = &message.DownstreamChunk{UpstreamOrAlias: message.UpstreamAlias(1), StreamChunk: &message.StreamChunk{DataPointGroups: []*message.DataPointGroup{{DataIDOrAlias: message.DataIDAlias(1), DataPoints: []*message.DataPoint{{ElapsedTime: time.Duration(ns), Payload: []byte{1}}}}}}}
+			}
+			m1, _, _, _, err := roundtrip(c, in)
+			out := "err"
+			if err == nil {
+				var sc *message.StreamChunk
+				switch x := m1.(type) {
+				case *message.UpstreamChunk:
+					sc = x.StreamChunk
+				case *message.DownstreamChunk:
+					sc = x.StreamChunk
+				}
+				if sc != nil && len(sc.DataPointGroups) == 1 && len(sc.DataPointGroups[0].DataPoints) == 1 {
+					out = strconv.FormatInt(int64(sc.DataPointGroups[0].DataPoints[0].ElapsedTime), 10)
+				} else {
+					out = "shape"
+				}
+			}
+			h.Op(fmt.Sprintf("elapsed %d", ns), out)
+			if out != strconv.FormatInt(ns, 10) {
+				h.Violate(fmt.Sprintf("a data point's elapsed time of %d ns decodes as %s", ns, out))
+			}
+		}
+	}
 	// sweeps at wire resolution: every whole millisecond / second of a stretch, and random whole units of the full range
 	var sweep []int64
 	for ms := int64(980); ms <= 1130; ms++ {
